@@ -212,16 +212,21 @@ def h_kappa(h):
         return h.fresh("simpson", None, None, default=0.01)
     h.patch_always(HY, simpson=simpson)
     hy.vJ = h.real("vJ", 0.05, 0.99, default=0.7)
+    hy.template.vJ = h.real("templ_vJ", 0.05, 0.99, default=0.65)   # differs from the true vJ for a general EOS
     vw = h.real("vw", 0.01, 0.99, default=0.4)
-    h.assume(lt(vw, hy.vJ))
     vp, vm = h.real("m_vp", 0.001, 0.99, default=0.3), h.real("m_vm", 0.001, 0.99, default=0.4)
     Tp, Tm = h.real("m_Tp", 0.01, 1e3, default=1.1), h.real("m_Tm", 0.01, 1e3, default=1.0)
     h.assume(AND(lt(vp, vw), eq(vm, vw), lt(vw * vw, th.csqLowT(Tm))), "subsonic deflagration: v- = vw < cs-, v+ < vw")
     hy.findMatching = lambda v: (vp, vm, Tp, Tm)
     kappa = hy.efficiencyFactor(vw)
+    # shock(vpcent, [vw, T+]) < 0 with vpcent = mu(vw, v+): mu(vw, vpcent) = v+, so the test is v+ vw < cs^2(T+)
+    front_ahead = lt(vp * vw, th.csqHighT(Tp))
     if not simp:
         h.prove_eq("no shock wave integrated => kappa = 0", kappa, 0.0)
+        h.prove("the shock-wave contribution is skipped only for vw >= vJ (the model's own Jouguet velocity) "
+                "or when the front sits at the wall", OR(ge(vw, hy.vJ), NOT(front_ahead)))
         return
+    h.prove("a shock wave is integrated only below the model's own Jouguet velocity", lt(vw, hy.vJ))
     y, x = simp[0]
     c = ivp.calls[0]
     h.prove("shock integrated from the boosted v+ at (vw, T+)", AND(
